@@ -136,6 +136,32 @@ def events_for_class(c: dict, pairs: list, ident: int, desc: dict) -> tuple:
             evs.append({'id': ident, 'op': 'cmpinh', 'cls': c, 'a': a, 'b': b, 'rel': rel,
                         'eq': _b(lambda: a_obj == b_obj), 'ne': _b(lambda: a_obj != b_obj), 'qe': _b(lambda: b_obj == a_obj)})
             desc[ident] = (f'{rel}: {a} vs {b}', c)
+    # a subclass that declares one more field, without options of its own and with eq=False (it then inherits
+    # the base's __eq__ - over the base's fields - and, without unsafe_hash, the base's __hash__)
+    def _subbody(ns):
+        ns['__annotations__'] = {'fz': int}
+        ns['fz'] = 0
+    for so_name, so in (('plain', {}), ('eqF', {'eq': False})):
+        try:
+            S = types.new_class('VSub', (G_int,), dict(so), _subbody)
+            sub_out = 'ok'
+        except Exception as e:  # noqa
+            S, sub_out = None, type(e).__name__
+        ident += 1
+        evs.append({'id': ident, 'op': 'defsub', 'cls': c, 'out': sub_out})
+        desc[ident] = (f'subclass creation ({so_name}, one more field)', c)
+        if S is None:
+            continue
+        for (a, b) in pairs[:4] + [p for p in pairs if p[0] == p[1]][:2]:
+            for za, zb in ((0, 0), (0, 1)):
+                a_obj = S(**dict(zip(NAMES, a)), fz=za)
+                b_obj = S(**dict(zip(NAMES, b)), fz=zb)
+                (ha, va), (hb, vb) = _h(a_obj), _h(b_obj)
+                ident += 1
+                evs.append({'id': ident, 'op': 'cmpsub', 'cls': c, 'so': so_name, 'a': a, 'b': b, 'za': za, 'zb': zb,
+                            'eq': _b(lambda: a_obj == b_obj), 'ne': _b(lambda: a_obj != b_obj), 'qe': _b(lambda: b_obj == a_obj),
+                            'ha': ha, 'hb': hb, 'heq': 'na' if va is None or vb is None else 'T' if va == vb else 'F'})
+                desc[ident] = (f'subclass {so_name} with one more field: {a}+{za} vs {b}+{zb}', c)
     # assignment / deletion
     n = len(c['fl'])
     for fi in range(n):
